@@ -304,10 +304,11 @@ void XMLWriter::labels(int x, int y, const edge_t& edge)
 {
     string str;
     if (edge.select.get_size() > 0) {
-        str = edge.select[0].get_name() + " : ";
-        if (edge.select[0].get_type().size() > 0 && edge.select[0].get_type()[0].size() > 0) {
-            str += edge.select[0].get_type()[0].get_label(0);
-        }  // else ? should not happen
+        for (uint32_t i = 0; i < edge.select.get_size(); ++i) {
+            if (i > 0)
+                str += ", ";
+            str += edge.select[i].get_name() + " : " + edge.select[i].get_type().declaration();
+        }
         label("select", str, x, y - 32);
     }
     if (!edge.guard.empty()) {
